@@ -46,6 +46,7 @@ class RSocketClient(RSocketBase):
         self._connect_request_event = asyncio.Event()
         self._transport: Optional[Transport] = None
         self._next_transport = asyncio.Future()
+        self._close_requested = False
         self._reconnect_task = asyncio.create_task(self._reconnect_listener())
         self._keepalive_task = None
 
@@ -118,6 +119,7 @@ class RSocketClient(RSocketBase):
     async def _close(self, reconnect=False):
 
         if not reconnect:
+            self._close_requested = True
             await cancel_if_task_exists(self._reconnect_task)
         else:
             logger().debug('%s: Closing before reconnect', self._log_identifier())
@@ -150,6 +152,12 @@ class RSocketClient(RSocketBase):
                     self._connecting = True
                     self._connect_request_event.clear()
                     await self._close(reconnect=True)
+
+                    if self._close_requested:
+                        # close() was called meanwhile. Its cancellation of this task may have been
+                        # absorbed while the old connection was being closed: do not open a new one
+                        return
+
                     # requests issued while the old connection was being closed can not be served by it any more
                     self.stop_all_streams()
                     self._next_transport = create_future()
